@@ -1,2 +1,163 @@
-import Mtv.Envelope.Model
-import Mtv.Envelope.Spec
+/-
+  C03 — the encrypted message envelope follows the MTProto 1.0 layout and key schedule.
+  Property theorems only. Model: Mtv/Envelope/Model.lean (the client's code), specification:
+  Mtv/Envelope/Spec.lean (the server's side, from the protocol description), lemmas: Mtv/Lemmas/C03.lean.
+
+  SHA-1 (`P.H`) and AES-256-IGE (`P.igeE`/`P.igeD`) are parameters; what is assumed of them is `P.Ok`
+  (digest length 20; IGE length-preserving and each direction inverting the other on non-empty
+  block-aligned input under a 32-byte key and IV). `toyPrims` shows `P.Ok` is satisfiable.
+-/
+import Mtv.Lemmas.C03
+namespace Mtv.Envelope
+open Mtv
+
+/-! ## key schedule and identifiers -/
+
+/-- Clause "auth_key_id, msg_key and the AES key/IV derived from the auth key exactly as MTProto 1.0
+prescribes": `generateAESIGE` with offset `x` (0 when sending, 8 when receiving) is the
+specification's key schedule for every auth key it does not refuse (128 + x bytes or more, in
+particular 256), and `AuthKeyHash` / `MessageKey` are the specification's identifiers. -/
+theorem kdf_schedule (P : Prims) (x : Nat) (mk key : Bytes) (hk : key.length = 256) (hx : x = 0 ∨ x = 8) :
+    kdf P x mk key = .ok (Spec.keyIv P x key mk) ∧
+    authKeyId P key = Spec.authKeyId P key ∧
+    ∀ plain, msgKey P plain = Spec.msgKeyOf P plain :=
+  ⟨kdf_eq_spec P x mk key (by omega), authKeyId_eq_spec P key, msgKey_eq_spec P⟩
+
+example : kdf toyPrims 8 (zeros 16) (zeros 256) = .ok (Spec.keyIv toyPrims 8 (zeros 256) (zeros 16)) :=
+  (kdf_schedule toyPrims 8 (zeros 16) (zeros 256) (by simp) (Or.inr rfl)).1
+
+/-! ## client → server -/
+
+/-- Clause "every encrypted message leaves the client as auth_key_id, msg_key and the AES-256-IGE
+encryption of (salt, session id, msg_id, seq_no, body length, body, fewer than 16 padding bytes)":
+for every 256-byte key, all field values, ack on or off and every body (every length, so every
+residue mod 16), `Encrypted.Serialize` returns `auth_key_id ‖ msg_key ‖ ct` where `ct` is the IGE
+encryption, under the client-direction (x = 0) key and IV of the msg_key, of the inner packet
+followed by fewer than 16 zero bytes; `ct` is whole blocks and exceeds header + body by less than 16. -/
+theorem sealClient_layout {P : Prims} (hP : P.Ok) (key : Bytes) (salt sid mid seq : Nat) (ack : Bool)
+    (body : Bytes) (hk : key.length = 256) :
+    ∃ ct pad,
+      sealClient P key salt sid mid seq ack body
+        = .ok (authKeyId P key ++ msgKey P (serializePacket salt sid mid seq ack body) ++ ct) ∧
+      ct = P.igeE (Spec.keyIv P 0 key (msgKey P (serializePacket salt sid mid seq ack body))).1
+                  (Spec.keyIv P 0 key (msgKey P (serializePacket salt sid mid seq ack body))).2
+                  (serializePacket salt sid mid seq ack body ++ pad) ∧
+      pad.length < 16 ∧ (∀ b ∈ pad, b = 0) ∧
+      ct.length % 16 = 0 ∧ 32 + body.length ≤ ct.length ∧ ct.length - (32 + body.length) < 16 := by
+  have hs := sealClient_eq_spec P key salt sid mid seq ack body (by omega)
+  have hobj := serializePacket_eq_plaintext salt sid mid seq ack body
+  have hl : (serializePacket salt sid mid seq ack body).length = 32 + body.length := by
+    rw [hobj]; exact plaintext_length _
+  have hkv := keyIv_length hP 0 key (msgKey P (serializePacket salt sid mid seq ack body))
+  have hpl : (serializePacket salt sid mid seq ack body ++ zeros (padLen (32 + body.length))).length
+      = (32 + body.length) + padLen (32 + body.length) := by simp [hl]
+  have hal := padLen_aligned (32 + body.length)
+  have hlt := padLen_lt (32 + body.length)
+  have hct := hP.igeE_len _ _ (serializePacket salt sid mid seq ack body ++ zeros (padLen (32 + body.length)))
+    hkv.1 hkv.2 (by rw [hpl]; omega) (by rw [hpl]; exact hal)
+  refine ⟨_, zeros (padLen (32 + body.length)), ?_, rfl, by simpa using hlt, ?_, ?_, ?_, ?_⟩
+  · rw [hs, authKeyId_eq_spec, msgKey_eq_spec, hobj]; rfl
+  · intro b hb; exact List.eq_of_mem_replicate hb
+  · rw [hct, hpl]; exact hal
+  · rw [hct, hpl]; omega
+  · rw [hct, hpl]; omega
+
+example := sealClient_layout toyPrims_ok (zeros 256) 1 2 4 2 true [1, 2, 3] (by simp)
+
+/-- the same statement against the specification: what leaves the client *is* the specification's
+client-to-server sealing of (salt, session, msg_id, seq_no with the ack bit, body) -/
+theorem sealClient_is_spec_sealing (P : Prims) (key : Bytes) (salt sid mid seq : Nat) (ack : Bool)
+    (body : Bytes) (hk : key.length = 256) :
+    sealClient P key salt sid mid seq ack body
+      = .ok (Spec.sealDir P 0 key ⟨salt, sid, mid, if ack then seq ||| 1 else seq, body⟩
+               (zeros (padLen (32 + body.length)))) :=
+  sealClient_eq_spec P key salt sid mid seq ack body (by omega)
+
+example := sealClient_is_spec_sealing toyPrims (zeros 256) 1 2 4 2 false [] (by simp)
+
+/-- Clause "so that a conformant server recovers precisely those fields": for every 256-byte key,
+every salt, session id, msg_id (64 bit), seq_no (32 bit), ack flag and every body shorter than 2^31
+bytes, the packet the client produces is opened by the specification's server (which also insists
+on fewer than 16 padding bytes and on the msg_key) to exactly those fields — seq_no with bit 0 set
+when an acknowledgement is required, as it is otherwise — and that body. -/
+theorem serverOpen_sealClient {P : Prims} (hP : P.Ok) (key : Bytes) (salt sid mid seq : Nat) (ack : Bool)
+    (body : Bytes) (hk : key.length = 256) (h1 : salt < 2 ^ 64) (h2 : sid < 2 ^ 64) (h3 : mid < 2 ^ 64)
+    (h4 : seq < 2 ^ 32) (h5 : body.length < 2 ^ 31) :
+    ∃ pkt, sealClient P key salt sid mid seq ack body = .ok pkt ∧
+      Spec.serverOpen P key pkt = some ⟨salt, sid, mid, if ack then seq ||| 1 else seq, body⟩ := by
+  refine ⟨_, sealClient_eq_spec P key salt sid mid seq ack body (by omega), ?_⟩
+  have hseq : (if ack then seq ||| 1 else seq) < 2 ^ 32 := by
+    cases ack
+    · simpa using h4
+    · simp only [if_true]; exact Nat.or_lt_two_pow h4 (by decide)
+  apply openDir_sealDir hP 0 key _ _ ⟨h1, h2, h3, hseq, h5⟩
+  · simpa using padLen_lt (32 + body.length)
+  · simpa using padLen_aligned (32 + body.length)
+
+example := serverOpen_sealClient toyPrims_ok (zeros 256) (2 ^ 64 - 1) 0 12 7 true [1, 2, 3, 4, 5]
+  (by simp) (by decide) (by decide) (by decide) (by decide) (by decide)
+
+/-! ## server → client -/
+
+/-- Clause "every packet a conformant server seals for the server-to-client direction is opened to
+exactly the salt, session id, msg_id, seq_no and body it contains": for every 256-byte key, every
+message whose fields fit their widths with a server-parity msg_id, every body shorter than 2^31
+bytes and every padding that makes the plaintext a multiple of 16 bytes (in particular the 0–15
+bytes the protocol allows — every residue of the body length), `DeserializeEncrypted` returns
+exactly that message. -/
+theorem openClient_serverSeal {P : Prims} (hP : P.Ok) (key : Bytes) (m : Msg) (pad : Bytes)
+    (hk : key.length = 256) (hm : m.WF) (hpar : serverParity m.mid)
+    (hal : (32 + m.body.length + pad.length) % 16 = 0) :
+    openClient P key (Spec.serverSeal P key m pad) = .ok m :=
+  openClient_sealDir8 hP key m pad (by omega) hm hpar hal
+
+example := openClient_serverSeal toyPrims_ok (zeros 256) ⟨5, 6, 2 ^ 64 - 1, 9, [1, 2, 3]⟩ (zeros 13)
+  (by simp) (by decide) (by decide) (by decide)
+
+/-! ## unencrypted key-exchange messages -/
+
+/-- Clause "unencrypted key-exchange messages carry a zero key id, the msg_id and the exact body
+length": `Unencrypted.Serialize` is 8 zero bytes, the msg_id, the 4-byte body length, the body; it
+is routed as unencrypted by `isPacketEncrypted`. -/
+theorem unenc_layout (mid : Nat) (body : Bytes) :
+    Unenc.serialize mid body = zeros 8 ++ leBytes mid 8 ++ leBytes body.length 4 ++ body ∧
+    (Unenc.serialize mid body).length = 20 + body.length ∧
+    Unenc.isEncrypted (Unenc.serialize mid body) = false := by
+  have hz : leBytes 0 8 = zeros 8 := by decide
+  refine ⟨by simp [Unenc.serialize, hz], by simp [Unenc.serialize]; omega, ?_⟩
+  have ht : (Unenc.serialize mid body).take 8 = zeros 8 := by
+    simp only [Unenc.serialize, hz, List.append_assoc]
+    exact List.take_left' (by simp)
+  have hl : ¬ (Unenc.serialize mid body).length < 8 := by simp [Unenc.serialize]
+  have h0 : fromLE (zeros 8) = 0 := by decide
+  simp [Unenc.isEncrypted, hl, ht, h0]
+
+example : (Unenc.serialize 5 [1, 2, 3]).length = 23 := (unenc_layout 5 [1, 2, 3]).2.1
+
+/-- … and `DeserializeUnencrypted` reads such a message back: every 64-bit msg_id with server
+parity, every body whose length fits the 32-bit length field. -/
+theorem unenc_roundtrip (mid : Nat) (body : Bytes) (hmid : mid < 2 ^ 64) (hpar : serverParity mid)
+    (hlen : body.length < 2 ^ 32) :
+    Unenc.deserialize (Unenc.serialize mid body) = .ok (mid, body) := by
+  have hs : Unenc.serialize mid body = leBytes 0 8 ++ (leBytes mid 8 ++ (leBytes body.length 4 ++ body)) := by
+    simp [Unenc.serialize]
+  have hl : (Unenc.serialize mid body).length = 20 + body.length := (unenc_layout mid body).2.1
+  have hmidr : fromLE (((Unenc.serialize mid body).drop 8).take 8) = mid := by
+    rw [hs, List.drop_left' (by simp), List.take_left' (by simp)]
+    exact fromLE_leBytes 8 mid (by simpa using hmid)
+  have hlenr : fromLE (((Unenc.serialize mid body).drop 16).take 4) = body.length := by
+    have : (leBytes 0 8 ++ leBytes mid 8).length = 16 := by simp
+    rw [hs, ← List.append_assoc, List.drop_left' this, List.take_left' (by simp)]
+    exact fromLE_leBytes 4 _ (by simpa using hlen)
+  have hbody : (Unenc.serialize mid body).drop 20 = body := by
+    have : (leBytes 0 8 ++ leBytes mid 8 ++ leBytes body.length 4).length = 20 := by simp
+    rw [Unenc.serialize]; exact List.drop_left' this
+  have hp : ¬ (mid % 4 ≠ 1 ∧ mid % 4 ≠ 3) := by unfold serverParity at hpar; omega
+  have c1 : ¬ (Unenc.serialize mid body).length < 16 := by omega
+  have c2 : ¬ (Unenc.serialize mid body).length < 20 := by omega
+  have c3 : ¬ ((Unenc.serialize mid body).length - 20 ≠ body.length) := by omega
+  simp only [Unenc.deserialize, c1, c2, if_false, hmidr, hp, hlenr, c3, hbody]
+
+example := unenc_roundtrip (2 ^ 64 - 1) [1, 2, 3] (by decide) (by decide) (by decide)
+
+end Mtv.Envelope
